@@ -149,6 +149,51 @@ func checkC38(c *Check) {
 		visit(ir.Body, nil)
 	}
 	c.Floor("calls/delete-then-deliver", 3)
+	// ---- (3b) a cancelled call's reusable result channel is drained unconditionally
+	for _, fn := range []string{"ClientImpl.doWait", "udpClient.doWait"} {
+		ir := r.ir(P + fn)
+		if ir == nil {
+			continue
+		}
+		found := false
+		walkBlock(ir.Body, nil, func(nd Node, _ []Guard) {
+			sw, ok := nd.(*SwitchN)
+			if !ok || sw.Tag != "select" || found {
+				return
+			}
+			for _, cs := range sw.Cases {
+				if len(cs.Vals) != 1 || !strings.HasSuffix(cs.Vals[0], ".Done()") {
+					continue
+				}
+				found = true
+				iCancel := topIndex(cs.Body, func(n Node) bool {
+					cn, ok := n.(*CallN)
+					return ok && cn.Fn != nil && cn.Fn.Name() == "cancelCall"
+				})
+				iDrain := topIndex(cs.Body, func(n Node) bool {
+					in, ok := n.(*SwitchN)
+					if !ok || in.Tag != "select" || len(in.Cases) != 2 {
+						return false
+					}
+					recv, def := false, false
+					for _, c2 := range in.Cases {
+						if c2.Default && len(c2.Body) == 0 {
+							def = true
+						}
+						if len(c2.Vals) == 1 && strings.HasPrefix(c2.Vals[0], "<-") && strings.HasSuffix(c2.Vals[0], ".singleResult") {
+							recv = true
+						}
+					}
+					return recv && def
+				})
+				iRet := topIndex(cs.Body, func(n Node) bool { _, ok := n.(*ReturnN); return ok })
+				c.Ob("calls/result-channel-drained-after-cancel", fn, iCancel >= 0 && iDrain > iCancel && iRet > iDrain, r.pos(cs.Pos), fmt.Sprintf("on ctx.Done: cancelCall (stmt %d), then an unconditional non-blocking receive from singleResult (stmt %d), then return (stmt %d) — a result delivered concurrently with the cancellation must not stay in the pooled channel", iCancel, iDrain, iRet))
+			}
+		})
+		if !found {
+			c.Undecided("calls/result-channel-drained-after-cancel", fn, r.pos(ir.Info.Decl.Pos()), "no select arm on ctx.Done() found")
+		}
+	}
 	// ---- (4) close
 	if ir := r.ir(P + "clientConn.massCancelRequestsLocked"); ir != nil {
 		n := 0
